@@ -34,9 +34,33 @@ def check(ctx):
     ctx.rule("C14-G", "a marker splits the text run it stands in: TaggedLine::push_str / push_char append to an existing string "
              "only when that string is the line's last element (v.last_mut() under the Str variant), never to an earlier one "
              "found by searching past markers")
+    ctx.rule("C14-H", "markers cannot influence the text: whatever add_line records about the renderer besides the line itself (any "
+             "SubRenderer field other than `lines` and `pending_frags`) is recorded on every path — with and without pending "
+             "markers — so that a line that received markers counts like any other line afterwards")
     for rid, fn in (("C14-A", rule_a), ("C14-B", rule_b), ("C14-C", rule_c), ("C14-D", rule_d), ("C14-E", rule_e), ("C14-F", rule_f),
-                    ("C14-G", rule_g)):
+                    ("C14-G", rule_g), ("C14-H", rule_h)):
         ctx.guard(rid, fn)
+
+
+def rule_h(ctx):
+    F = ctx.facts
+    b = F.one("SubRenderer::<D>::add_line")
+    rets = [x for x in b.reachable() if b.term(x)["k"] == "return"]
+    pushes = [bb for bb, t in b.calls(lambda cd, t: callee_method(t) in ("push_back", "push")) if has_field(b.atoms(t["args"][0]), SUBR, "lines")]
+    ctx.floor("C14-H", "pushes onto SubRenderer.lines in add_line", len(pushes), 2)
+    n = 0
+    for (bb, where, pl, acc) in b.all_places():
+        if acc not in ("write", "refmut"):
+            continue
+        fs = [e for e in pl["p"] if isinstance(e, dict) and "f" in e]
+        if not fs or not ends(fs[0]["o"], SUBR) or fs[0]["n"] in ("lines", "pending_frags"):
+            continue
+        n += 1
+        skipped = [r for r in b.reach_from(0, avoid=[bb]) if r in rets and r != bb]
+        ctx.check(not skipped, "C14-H", "add_line:%s-recorded-on-every-path" % fs[0]["n"], site(b, bb, where), b.id,
+                  "add_line updates SubRenderer.%s on some paths only: a line added together with pending markers is not "
+                  "accounted for, so an id changes what later blocks see (e.g. the blank line between blocks)" % fs[0]["n"])
+    ctx.info("C14-H", "fields besides lines/pending_frags that add_line updates: %d" % n)
 
 
 SEARCHES = ("rev", "find", "find_map", "rfind", "iter_mut", "iter", "rposition", "position", "nth_back", "next_back", "filter",
